@@ -186,9 +186,9 @@ def run_fontkit(chk, pid, nprog):
     shutil.rmtree(tmp, ignore_errors=True); os.makedirs(tmp)
     cases, progs = [], []
     for k in range(nprog):
-        prog = c06.gen_program(rng, gl)
+        prog, nsub = c06.gen_program(rng, gl)
         p = os.path.join(tmp, 'p%d.ttf' % k)
-        open(p, 'wb').write(K.build_font(base, prog))
+        open(p, 'wb').write(K.build_font(base, prog, nsub))
         text = K.prog_to_text(prog)
         alpha = sorted(set(g for ps in prog for g in ps['alpha']))
         for t in range(5):
